@@ -415,7 +415,7 @@ impl Prop for C15 {
     }
     fn runs(&self, tier: Tier) -> u64 {
         match tier {
-            Tier::Quick => 6000,
+            Tier::Quick => 30_000,
             Tier::Thorough => 120_000,
         }
     }
